@@ -245,7 +245,7 @@ class ComponentTensor(Operator):
         # as the result of this method is not cached.
         if isinstance(B, Indexed):
             C, kk = B.ufl_operands
-            if isinstance(C, ListTensor) and len(kk) == 1 and isinstance(rep[kk[0]], FixedIndex):
+            if isinstance(C, ListTensor) and len(kk) == 1 and isinstance(rep.get(kk[0]), FixedIndex):
                 (k,) = kk
                 B = C.ufl_operands[int(rep[k])]
                 jj = MultiIndex(tuple(j for j in jj if j != k))
